@@ -1,16 +1,32 @@
 /-
-  C07 — conversion options change the form of the output, never its meaning (WBXML generation
-  side; the XML generation modes are at the end).
+  C07 — conversion options change the form of the output, never its meaning.
+
+  WBXML generation side (version, string table, public identifier, source charset):
+    * per option: `charset_irrelevant`, `version_only_changes_header`, `anonymous_only_changes_publicid`,
+      `strtbl_off_same_text/_attr_value`;
+    * all options at once: `enc_opts_same_events` (same node walk ⇒ the very same events: every
+      language, typed content, CDATA, embedded documents), `enc_opts_same_meaning` (all 29 languages,
+      typed content; any two option tuples with the same white-space option), the older
+      `enc_opts_same_meaning_partial` (21 plain languages, no source hypotheses);
+    * at TREE level: `strtbl_irrelevant_tree_partial`, `strtbl_off_fails_on_literal`.
+  XML generation side (compact / indented / canonical):
+    * the printer: `gen_modes_same_markup_partial`, `indent_adds_only_whitespace` (every tree, embedded
+      documents included);
+    * the reader (Expat as a parameter): `canonical_and_compact_read_back_same_partial`,
+      `indent_read_back_same_up_to_blank_text_partial`, `indent_and_compact_read_back_same_norm_partial`.
 
   All theorems are universally quantified over trees and option tuples and are proved from the
-  definitions of `Model/EncWbxml*.lean` by induction over the tree (`Lemmas/EncWCfg.lean`,
-  `Lemmas/EncWTbl.lean`).
+  definitions of `Model/EncWbxml*.lean` / `Model/EncXml.lean` by induction over the tree
+  (`Lemmas/EncW*.lean`, `Lemmas/Rt*.lean`).
 -/
 import Wbxml.Props.C06
+import Wbxml.Props.C03
+import Wbxml.Lemmas.EncWOpts
 import Wbxml.Lemmas.EncWXmlModes
+import Wbxml.Lemmas.RtModes
 set_option maxRecDepth 100000
 namespace Wbxml.Props.C07
-open Wbxml Wbxml.Model Wbxml.Spec Wbxml.Lemmas.EncW Wbxml.Lemmas.ParseSer
+open Wbxml Wbxml.Model Wbxml.Spec Wbxml.Lemmas.EncW Wbxml.Lemmas.ParseSer Wbxml.Lemmas.Rt
 open Wbxml.Model.Codec (mbEncode)
 
 /-! ## Source character set -/
@@ -207,7 +223,9 @@ theorem strtbl_off_same_attr_value (c : WCfg) (na : Option (List Attr)) (a : Att
 /-! ## All encoder options at once -/
 
 /-- **`enc_opts_same_meaning`** (DESIGN §5 C07) at the level of what a reader reports, `_partial` as
-    `C06.denotes_source_partial` (plain trees of plain languages): two option tuples that agree on
+    `C06.denotes_source_partial` (plain trees of the 21 plain languages; kept because it needs NO source
+    hypothesis — `enc_opts_same_meaning` below covers all 29 languages and typed content under the four
+    finding hypotheses): two option tuples that agree on
     white-space preservation — any versions, string table on or off, with or without public
     identifier — produce outputs whose strict reading (and the parser model's) has the same
     XML-level view: same elements, same attributes and values, same character data. -/
@@ -240,12 +258,372 @@ theorem enc_opts_same_meaning_partial (cfg₁ cfg₂ : X2WCfg) (hk : cfg₁.keep
   have f₂ := dcfgOf_view_fields cfg₂ lang
   exact (srcToks_congr _ _ (by simp) (by rw [f₁.1, f₂.1, hk]) (by rw [f₁.2, f₂.2, hk])).1 r
 
+
+/-! ## Stronger option independence (all 29 languages, typed content, CDATA, embedded documents)
+
+  `sameWalk cfg₁ cfg₂ lang` — the two parameter blocks agree on white-space preservation and on the
+  EFFECTIVE string-table switch (`encoder_encode_tree` never uses a string table for Wireless
+  Village and OTA settings, so for those three languages every two blocks with the same `keepWs`
+  qualify). Then the version and the public identifier are the only things that may differ, and
+  they are read by the header only (the version also by embedded documents). -/
+
+/-- **`enc_opts_same_events`: version and public identifier never change the events — every language,
+    every kind of content.** For ANY tree over ANY of the 29 languages (typed content, CDATA
+    sections; embedded documents when the two versions agree) under the four source hypotheses of
+    `C06.enc_is_ser_wf` (each a recorded finding): two option tuples with `sameWalk` write
+    documents `d₁`, `d₂` with THE SAME root element (so the bodies are byte-identical) whose headers
+    are the headers of the two tuples over one final encoder state; both are accepted by the parser
+    under every pair of reader configurations whose header look-up selects the language, and the two
+    event lists are EQUAL except for the character set reported by `startDoc` (a version 1.0 header has
+    no charset field, so the reader's default applies). No view, no normalisation: the very same
+    events. -/
+theorem enc_opts_same_events (cfg₁ cfg₂ : X2WCfg) (t : Tree) (bs₁ bs₂ : Bytes) (lang : Lang) (r : Node)
+    (hlang : t.lang = some lang) (hroot : t.root = some r)
+    (hl : langOk lang = true) (htl : typedLangOk lang = true) (hover : treeOver lang t = true)
+    (h₁ : treeToWbxml cfg₁ t = .ok bs₁) (h₂ : treeToWbxml cfg₂ t = .ok bs₂)
+    (hsw : sameWalk cfg₁ cfg₂ lang = true) (hn : noNested r = true ∨ cfg₁.version = cfg₂.version)
+    (hcdata : noCdataInTyped lang false r = true) (hdt : validDatetimeAttrs lang r = true)
+    (hb64 : b64TextDecodes (dcfgOf cfg₁ lang) none r = true)
+    (hkv : keyValueTextFirst (dcfgOf cfg₁ lang) none true r = true) :
+    ∃ d₁ d₂ : Doc, bs₁ = Spec.ser d₁ ∧ bs₂ = Spec.ser d₂ ∧ d₂.root = d₁.root ∧
+      ∀ p₁ p₂ : PCfg, headerLang p₁ d₁.hdr = some lang → headerLang p₂ d₂.hdr = some lang →
+        (headerCharset p₁ d₁.hdr = 3 ∨ headerCharset p₁ d₁.hdr = 106) →
+        (headerCharset p₂ d₂.hdr = 3 ∨ headerCharset p₂ d₂.hdr = 106) →
+        p₁.charsets.contains (headerCharset p₁ d₁.hdr) = true →
+        p₂.charsets.contains (headerCharset p₂ d₂.hdr) = true →
+        cfg₁.version < 256 → cfg₂.version < 256 → bs₁.length < 4294967296 → bs₂.length < 4294967296 →
+        (parse p₁ bs₁).result = .ok () ∧ (parse p₂ bs₂).result = .ok () ∧
+        ∃ evs : List Event,
+          (parse p₁ bs₁).events = .startDoc (headerCharset p₁ d₁.hdr) lang.id :: (evs ++ [.endDoc]) ∧
+          (parse p₂ bs₂).events = .startDoc (headerCharset p₂ d₂.hdr) lang.id :: (evs ++ [.endDoc]) := by
+  obtain ⟨r', d₁, st, hr', hres⟩ := treeToWbxml_doc cfg₁ t bs₁ lang hlang hl hover h₁
+  rw [hroot] at hr'; injection hr' with hr'; subst hr'
+  obtain ⟨d₂, hs₂, hroot₂, _, hk⟩ := hres.sameWalk hl htl hcdata hdt hb64 hkv cfg₂ t bs₂ hlang hroot hsw hn h₂
+  refine ⟨d₁, d₂, hres.ser, hs₂, hroot₂, ?_⟩
+  intro p₁ p₂ a₁ a₂ b₁ b₂ c₁ c₂ v₁ v₂ s₁ s₂
+  have hwf₁ := hres.wfTyped hl htl hcdata hdt hb64 hkv p₁ a₁ b₁ c₁ v₁ s₁
+  obtain ⟨hwf₂, evs, e₁, e₂⟩ := hk p₁ p₂ a₁ a₂ b₂ c₂ v₂ s₁ s₂
+  have q₁ := Props.C04.parse_ser p₁ d₁ hwf₁
+  have q₂ := Props.C04.parse_ser p₂ d₂ hwf₂
+  rw [← hres.ser] at q₁
+  rw [← hs₂] at q₂
+  exact ⟨q₁.1, q₂.1, evs, by rw [q₁.2, e₁], by rw [q₂.2, e₂]⟩
+
+/-- … in particular the XML-level views agree. -/
+theorem enc_opts_same_view_of_sameWalk (cfg₁ cfg₂ : X2WCfg) (t : Tree) (bs₁ bs₂ : Bytes) (lang : Lang) (r : Node)
+    (hlang : t.lang = some lang) (hroot : t.root = some r)
+    (hl : langOk lang = true) (htl : typedLangOk lang = true) (hover : treeOver lang t = true)
+    (h₁ : treeToWbxml cfg₁ t = .ok bs₁) (h₂ : treeToWbxml cfg₂ t = .ok bs₂)
+    (hsw : sameWalk cfg₁ cfg₂ lang = true) (hn : noNested r = true ∨ cfg₁.version = cfg₂.version)
+    (hcdata : noCdataInTyped lang false r = true) (hdt : validDatetimeAttrs lang r = true)
+    (hb64 : b64TextDecodes (dcfgOf cfg₁ lang) none r = true)
+    (hkv : keyValueTextFirst (dcfgOf cfg₁ lang) none true r = true) :
+    ∃ d₁ d₂ : Doc, bs₁ = Spec.ser d₁ ∧ bs₂ = Spec.ser d₂ ∧
+      ∀ p₁ p₂ : PCfg, headerLang p₁ d₁.hdr = some lang → headerLang p₂ d₂.hdr = some lang →
+        (headerCharset p₁ d₁.hdr = 3 ∨ headerCharset p₁ d₁.hdr = 106) →
+        (headerCharset p₂ d₂.hdr = 3 ∨ headerCharset p₂ d₂.hdr = 106) →
+        p₁.charsets.contains (headerCharset p₁ d₁.hdr) = true →
+        p₂.charsets.contains (headerCharset p₂ d₂.hdr) = true →
+        cfg₁.version < 256 → cfg₂.version < 256 → bs₁.length < 4294967296 → bs₂.length < 4294967296 →
+        (parse p₁ bs₁).result = .ok () ∧ (parse p₂ bs₂).result = .ok () ∧
+        (parse p₁ bs₁).events.flatMap toks = (parse p₂ bs₂).events.flatMap toks := by
+  obtain ⟨d₁, d₂, e₁, e₂, _, hk⟩ := enc_opts_same_events cfg₁ cfg₂ t bs₁ bs₂ lang r hlang hroot hl htl hover h₁ h₂
+    hsw hn hcdata hdt hb64 hkv
+  refine ⟨d₁, d₂, e₁, e₂, ?_⟩
+  intro p₁ p₂ a₁ a₂ b₁ b₂ c₁ c₂ v₁ v₂ s₁ s₂
+  obtain ⟨r₁, r₂, evs, q₁, q₂⟩ := hk p₁ p₂ a₁ a₂ b₁ b₂ c₁ c₂ v₁ v₂ s₁ s₂
+  refine ⟨r₁, r₂, ?_⟩
+  rw [q₁, q₂]
+  simp only [List.flatMap_cons, toks, List.nil_append]
+
+/-- Wireless Village 1.1/1.2 and OTA settings never use a string table: there `sameWalk` is just
+    "same white-space option", so `enc_opts_same_events` covers ALL option tuples. -/
+theorem sameWalk_wv_ota (cfg₁ cfg₂ : X2WCfg) (lang : Lang) (hk : cfg₁.keepWs = cfg₂.keepWs)
+    (hw : (isWv lang.id || lang.id == 1901) = true) : sameWalk cfg₁ cfg₂ lang = true := by
+  have : ∀ cfg : X2WCfg, (dcfgOf cfg lang).useStrtbl = false := by
+    intro cfg
+    unfold dcfgOf
+    rw [deriveCfg_useStrtbl]
+    simp only [wcfgOf, hw, ↓reduceIte]
+  simp only [sameWalk, hk, this, beq_self_eq_true, Bool.and_self]
+
+/-- … and for every other language it says: same white-space option, same `useStrtbl`. -/
+theorem sameWalk_of_fields (cfg₁ cfg₂ : X2WCfg) (lang : Lang) (hk : cfg₁.keepWs = cfg₂.keepWs)
+    (hu : cfg₁.useStrtbl = cfg₂.useStrtbl) : sameWalk cfg₁ cfg₂ lang = true := by
+  have : (dcfgOf cfg₁ lang).useStrtbl = (dcfgOf cfg₂ lang).useStrtbl := by
+    unfold dcfgOf
+    rw [deriveCfg_useStrtbl, deriveCfg_useStrtbl]
+    show (if (isWv lang.id || lang.id == 1901) = true then false else cfg₁.useStrtbl) = _
+    rw [hu]
+    rfl
+  simp only [sameWalk, hk, this, beq_self_eq_true, Bool.and_self]
+
+/-- Non-vacuity (Wireless Village, typed content): `<Code>0200</Code>` under (1.3, string table asked
+    for, public identifier) and (1.1, no string table, anonymous): `sameWalk` holds, all hypotheses
+    hold, the octets differ, both parse, and the events after `startDoc` are the same list (the
+    integer comes back as `200` in both). -/
+example : sameWalk {} { version := 1, useStrtbl := false, anonymous := true } Gen.lang24 = true ∧
+    noNested (C06.exWvRoot [.text b!"0200"]) = true ∧
+    C06.typedHyps {} Gen.lang24 (C06.exWvRoot [.text b!"0200"]) = true ∧
+    C06.outOf {} (C06.exWv [.text b!"0200"]) = [0x03, 0x10, 0x6A, 0x00, 0x49, 0x4B, 0xC3, 0x01, 0xC8, 0x01, 0x01] ∧
+    C06.outOf { version := 1, useStrtbl := false, anonymous := true } (C06.exWv [.text b!"0200"]) =
+      [0x01, 0x01, 0x6A, 0x00, 0x49, 0x4B, 0xC3, 0x01, 0xC8, 0x01, 0x01] ∧
+    (parse { main := Gen.main, langForced := 2301 }
+        (C06.outOf { version := 1, useStrtbl := false, anonymous := true } (C06.exWv [.text b!"0200"]))).events.drop 1 =
+      (parse C06.exPc (C06.outOf {} (C06.exWv [.text b!"0200"]))).events.drop 1 ∧
+    Event.chars b!"200" ∈ (parse C06.exPc (C06.outOf {} (C06.exWv [.text b!"0200"]))).events := by decide +kernel
+
+/-- `<SyncML><![CDATA[a<b]]><x/></SyncML>`-like tree (SyncML 1.2): a CDATA section and a literal element. -/
+def exCdata : Tree where
+  lang := some Gen.lang15
+  origCharset := 106
+  root := some (.elt (.token ⟨b!"SyncML", 0, 0x2D, 0⟩) [] [.cdata [.text b!"a<b"], .elt (.literal b!"x") [] []])
+
+/-- Non-vacuity (CDATA section, literal name through the string table, anonymous vs public identifier,
+    versions 1.3 and 1.0): same events after `startDoc`. -/
+example : sameWalk {} { version := 0, anonymous := true } Gen.lang15 = true ∧
+    noNested (C03.rootOr exCdata) = true ∧ C06.typedHyps {} Gen.lang15 (C03.rootOr exCdata) = true ∧
+    treeOver Gen.lang15 exCdata = true ∧
+    (C06.outOf {} exCdata == C06.outOf { version := 0, anonymous := true } exCdata) = false ∧
+    (parse { main := Gen.main, langForced := 2201 } (C06.outOf { version := 0, anonymous := true } exCdata)).events.drop 1 =
+      (parse C06.exPc (C06.outOf {} exCdata)).events.drop 1 ∧
+    Event.chars b!"a<b" ∈ (parse C06.exPc (C06.outOf {} exCdata)).events := by decide +kernel
+
+/-- **`enc_opts_same_meaning`, all 29 languages, typed content included.** Two option tuples with
+    the same white-space option — any versions, string table on or off, with or without public
+    identifier — for a tree over ANY language of the library under the four source hypotheses of
+    `C06.enc_is_ser_wf` (each a recorded finding): both outputs are accepted by the parser (under every
+    pair of reader configurations whose header look-up selects the language) and the two event lists
+    have the SAME XML-level view — same elements (names as the reader resolves them), same attributes
+    and values, same character data; typed values (`%Datetime` attributes, WV integers and dates,
+    base64-carried content, binary elements) are the same octets in both outputs, hence the same
+    value. Scope (`hscope`), one of:
+
+    * the two tuples run the same node walk (`sameWalk`: same effective string-table switch — always
+      so for Wireless Village and OTA settings) and the tree has no embedded document or the versions
+      agree: then ANY tree (CDATA sections included), and the events themselves are equal
+      (`enc_opts_same_events`);
+    * the tree is plain (no CDATA section, no embedded document): then any two tuples, through the
+      typed source view `C06.denotes_source_typed` (`vTree`), which no option but `keepWs` enters.
+
+    What is left `_partial` (not covered by either alternative): CDATA sections or embedded documents
+    together with DIFFERENT string-table switches (the view of a CDATA section needs the
+    concatenation of the section's text as a function of the source), and embedded documents with
+    different versions (`version_changes_embedded_header`: the octets of the OPAQUE differ; its
+    meaning is this theorem one level down). -/
+theorem enc_opts_same_meaning (cfg₁ cfg₂ : X2WCfg) (hk : cfg₁.keepWs = cfg₂.keepWs)
+    (t : Tree) (bs₁ bs₂ : Bytes) (lang : Lang) (r : Node)
+    (hlang : t.lang = some lang) (hroot : t.root = some r)
+    (hl : langOk lang = true) (htl : typedLangOk lang = true) (hover : treeOver lang t = true)
+    (h₁ : treeToWbxml cfg₁ t = .ok bs₁) (h₂ : treeToWbxml cfg₂ t = .ok bs₂)
+    (hcdata : noCdataInTyped lang false r = true) (hdt : validDatetimeAttrs lang r = true)
+    (hb64 : b64TextDecodes (dcfgOf cfg₁ lang) none r = true)
+    (hkv : keyValueTextFirst (dcfgOf cfg₁ lang) none true r = true)
+    (hvs : valSemOk lang = true) (has : attrSemOk lang = true) (han : attrNameSemOk lang = true)
+    (hscope : (sameWalk cfg₁ cfg₂ lang = true ∧ (noNested r = true ∨ cfg₁.version = cfg₂.version)) ∨
+      plainNode r = true) :
+    ∃ d₁ d₂ : Doc, bs₁ = Spec.ser d₁ ∧ bs₂ = Spec.ser d₂ ∧
+      ∀ p₁ p₂ : PCfg, headerLang p₁ d₁.hdr = some lang → headerLang p₂ d₂.hdr = some lang →
+        (headerCharset p₁ d₁.hdr = 3 ∨ headerCharset p₁ d₁.hdr = 106) →
+        (headerCharset p₂ d₂.hdr = 3 ∨ headerCharset p₂ d₂.hdr = 106) →
+        p₁.charsets.contains (headerCharset p₁ d₁.hdr) = true →
+        p₂.charsets.contains (headerCharset p₂ d₂.hdr) = true →
+        cfg₁.version < 256 → cfg₂.version < 256 → bs₁.length < 4294967296 → bs₂.length < 4294967296 →
+        (parse p₁ bs₁).result = .ok () ∧ (parse p₂ bs₂).result = .ok () ∧
+        (parse p₁ bs₁).events.flatMap toks = (parse p₂ bs₂).events.flatMap toks := by
+  have hsame : sameWalk cfg₁ cfg₂ lang = true → (noNested r = true ∨ cfg₁.version = cfg₂.version) → _ :=
+    fun hsw hn => enc_opts_same_view_of_sameWalk cfg₁ cfg₂ t bs₁ bs₂ lang r hlang hroot hl htl hover h₁ h₂ hsw hn
+      hcdata hdt hb64 hkv
+  rcases hscope with ⟨hsw, hn⟩ | hpn
+  · exact hsame hsw hn
+  · by_cases hw : (isWv lang.id || lang.id == 1901) = true
+    · exact hsame (sameWalk_wv_ota cfg₁ cfg₂ lang hk hw) (Or.inl (noNested_of_plain r hpn))
+    · have hw' : isWv lang.id = false ∧ (lang.id == 1901) = false := by
+        simpa using hw
+      have f₁ := dcfgOf_view_fields cfg₁ lang
+      have f₂ := dcfgOf_view_fields cfg₂ lang
+      have hi : (dcfgOf cfg₂ lang).ignoreEmpty = (dcfgOf cfg₁ lang).ignoreEmpty := by rw [f₁.1, f₂.1, hk]
+      have hr : (dcfgOf cfg₂ lang).removeBlanks = (dcfgOf cfg₁ lang).removeBlanks := by rw [f₁.2, f₂.2, hk]
+      have hb64₂ : b64TextDecodes (dcfgOf cfg₂ lang) none r = true := by
+        rw [b64TextDecodes_congr _ _ (by simp) hi hr]; exact hb64
+      have hkv₂ : keyValueTextFirst (dcfgOf cfg₂ lang) none true r = true := by
+        rw [keyValueTextFirst_congr _ _ (by simp) hi hr]; exact hkv
+      obtain ⟨d₁, e₁, k₁⟩ := C06.denotes_source_typed cfg₁ t bs₁ lang r hlang hroot hl htl hover h₁ hcdata hdt hb64 hkv
+        hpn hw'.1 hw'.2 hvs has han
+      obtain ⟨d₂, e₂, k₂⟩ := C06.denotes_source_typed cfg₂ t bs₂ lang r hlang hroot hl htl hover h₂ hcdata hdt hb64₂ hkv₂
+        hpn hw'.1 hw'.2 hvs has han
+      refine ⟨d₁, d₂, e₁, e₂, ?_⟩
+      intro p₁ p₂ a₁ a₂ b₁ b₂ c₁ c₂ v₁ v₂ s₁ s₂
+      obtain ⟨_, r₁, _, t₁⟩ := k₁ p₁ a₁ b₁ c₁ v₁ s₁
+      obtain ⟨_, r₂, _, t₂⟩ := k₂ p₂ a₂ b₂ c₂ v₂ s₂
+      refine ⟨r₁, r₂, ?_⟩
+      rw [t₁, t₂]
+      unfold vTree
+      rw [vNode_congr _ _ (by simp) hi hr]
+
+/-- The table facts `enc_opts_same_meaning` asks for hold for all 29 languages of the library. -/
+theorem main_opts_facts : Gen.main.all (fun l => langOk l && typedLangOk l && valSemOk l && attrSemOk l && attrNameSemOk l) = true := by
+  decide +kernel
+
+/-! ### Non-vacuity of `enc_opts_same_meaning` in the languages that are new (string table on vs off) -/
+
+/-- SI 1.0: a `%Datetime` attribute and a text that occurs three times (so it goes to the string table). -/
+def exSiRoot : Node :=
+  .elt (.token ⟨b!"si", 0, 5, 0⟩) [] [
+    .elt (.token ⟨b!"indication", 0, 6, 0⟩) [⟨.token ⟨b!"created", none, 0, 10⟩, b!"1999-06-25T15:23:15Z" ++ [0]⟩]
+      [.text b!"hello world hello"],
+    .elt (.token ⟨b!"info", 0, 7, 0⟩) [] [
+      .elt (.token ⟨b!"item", 0, 8, 0⟩) [⟨.token ⟨b!"class", none, 0, 18⟩, b!"hello world hello" ++ [0]⟩]
+        [.text b!"hello world hello"]]]
+def exSi : Tree := { lang := some Gen.lang8, origCharset := 106, root := some exSiRoot }
+
+/-- All hypotheses hold; with the string table the text is written once (`83 00`), without it three
+    times inline; the `created` value is the same seven BCD octets in both; both outputs parse; both
+    views are the typed source view `vTree`, which shows the date-time as text again. -/
+example : treeOver Gen.lang8 exSi = true ∧ C06.typedHyps {} Gen.lang8 exSiRoot = true ∧ plainNode exSiRoot = true ∧
+    hexOfBytes (C06.outOf {} exSi) =
+      "03056a1268656c6c6f20776f726c642068656c6c6f0045c60ac307199906251523150183000147c8128300018300010101" ∧
+    hexOfBytes (C06.outOf { useStrtbl := false, version := 1, anonymous := true } exSi) =
+      "01016a0045c60ac30719990625152315010368656c6c6f20776f726c642068656c6c6f000147c8120368656c6c6f20776f726c642068656c6c6f00010368656c6c6f20776f726c642068656c6c6f00010101" ∧
+    (parse C06.exPc (C06.outOf {} exSi)).events.flatMap toks = vTree (dcfgOf {} Gen.lang8) exSiRoot ∧
+    (parse { main := Gen.main, langForced := 1301 }
+      (C06.outOf { useStrtbl := false, version := 1, anonymous := true } exSi)).events.flatMap toks =
+        vTree (dcfgOf {} Gen.lang8) exSiRoot ∧
+    Tok.start b!"indication" [(b!"created", b!"1999-06-25T15:23:15Z" ++ [0])] ∈ vTree (dcfgOf {} Gen.lang8) exSiRoot := by
+  decide +kernel
+
+/-- DRMREL: base64 text (with a blank) under `ds:KeyValue`, and a text that occurs twice. -/
+def exDrmRoot : Node :=
+  .elt (.token ⟨b!"o-ex:rights", 0, 5, 0⟩) [] [
+    .elt (.token ⟨b!"ds:KeyValue", 0, 12, 0⟩) [] [.text b!"QU JD"],
+    .elt (.token ⟨b!"o-dd:uid", 0, 8, 0⟩) [] [.text b!"cid:4567829547@foo.com"],
+    .elt (.token ⟨b!"o-dd:uid", 0, 8, 0⟩) [] [.text b!"cid:4567829547@foo.com"]]
+def exDrm : Tree := { lang := some Gen.lang13, origCharset := 106, root := some exDrmRoot }
+
+/-- The key goes out as the OPAQUE `ABC` in both; the view shows its canonical base64 text `QUJD`. -/
+example : treeOver Gen.lang13 exDrm = true ∧ C06.typedHyps {} Gen.lang13 exDrmRoot = true ∧ plainNode exDrmRoot = true ∧
+    hexOfBytes (C06.outOf {} exDrm) =
+      "030e6a176369643a3435363738323935343740666f6f2e636f6d00454cc30341424301488300014883000101" ∧
+    hexOfBytes (C06.outOf { useStrtbl := false } exDrm) =
+      "030e6a00454cc3034142430148036369643a3435363738323935343740666f6f2e636f6d000148036369643a3435363738323935343740666f6f2e636f6d000101" ∧
+    (parse C06.exPc (C06.outOf {} exDrm)).events.flatMap toks = vTree (dcfgOf {} Gen.lang13) exDrmRoot ∧
+    (parse C06.exPc (C06.outOf { useStrtbl := false } exDrm)).events.flatMap toks = vTree (dcfgOf {} Gen.lang13) exDrmRoot ∧
+    (vTree (dcfgOf {} Gen.lang13) exDrmRoot).take 7 =
+      [.start b!"o-ex:rights" [], .start b!"ds:KeyValue" [], .ch 0x51, .ch 0x55, .ch 0x4A, .ch 0x44, .stop b!"ds:KeyValue"] := by
+  decide +kernel
+
+/-- ActiveSync: a repeated text, an aliased name (`RequireStorageCardEncryption` shares page 14 token
+    16 with `DeviceEncryptionEnabled`), a binary-flagged element as token and as literal name. -/
+def exAsRoot : Node :=
+  .elt (.token ⟨b!"Sync", 0, 5, 0⟩) [] [
+    .elt (.token ⟨b!"SyncKey", 0, 11, 0⟩) [] [.text b!"repeated text here"],
+    .elt (.token ⟨b!"ClientId", 0, 12, 0⟩) [] [.text b!"repeated text here"],
+    .elt (.token ⟨b!"RequireStorageCardEncryption", 14, 16, 0⟩) [] [.text b!"1"],
+    .elt (.token ⟨b!"ConversationId", 15, 32, 1⟩) [] [.text [1, 2, 0, 255]],
+    .elt (.literal b!"ConversationId") [] [.text [3, 0, 4]]]
+def exAs : Tree := { lang := some Gen.lang27, origCharset := 106, root := some exAsRoot }
+
+example : treeOver Gen.lang27 exAs = true ∧ C06.typedHyps {} Gen.lang27 exAsRoot = true ∧ plainNode exAsRoot = true ∧
+    hexOfBytes ((C06.outOf {} exAs).drop 57) = "454b8300014c830001000e5003310001000f60c304010200ff0160c3030300040101" ∧
+    (C06.outOf {} exAs == C06.outOf { useStrtbl := false } exAs) = false ∧
+    (parse C06.exPc (C06.outOf {} exAs)).events.flatMap toks = vTree (dcfgOf {} Gen.lang27) exAsRoot ∧
+    (parse C06.exPc (C06.outOf { useStrtbl := false } exAs)).events.flatMap toks = vTree (dcfgOf {} Gen.lang27) exAsRoot ∧
+    Tok.start b!"DeviceEncryptionEnabled" [] ∈ vTree (dcfgOf {} Gen.lang27) exAsRoot := by
+  decide +kernel
+
+/-! ## String table on / off at TREE level -/
+
+/-- The normalisation of C03 depends on the options only through the white-space option. -/
+theorem normNode_opts (cfg₁ cfg₂ : X2WCfg) (hk : cfg₁.keepWs = cfg₂.keepWs) (lang : Lang) (r : Node)
+    (hpn : plainNode r = true) (helt : isElt r = true) (hnames : namesOk lang r = true) :
+    normNode (dcfgOf cfg₁ lang) r = normNode (dcfgOf cfg₂ lang) r := by
+  have f₁ := dcfgOf_view_fields cfg₁ lang
+  have f₂ := dcfgOf_view_fields cfg₂ lang
+  have hv : ntoks (normNode (dcfgOf cfg₁ lang) r) = ntoks (normNode (dcfgOf cfg₂ lang) r) := by
+    rw [ntoks_normNode _ r hpn (by rw [dcfgOf_lang]; exact hnames),
+      ntoks_normNode _ r hpn (by rw [dcfgOf_lang]; exact hnames)]
+    exact (srcToks_congr _ _ (by simp) (by rw [f₁.1, f₂.1, hk]) (by rw [f₁.2, f₂.2, hk])).1 r
+  have ht : ∀ c, isText (normNode c r) = false := by
+    intro c; cases r <;> first | rfl | cases helt
+  have := canon_eq_of_ntoks _ _ (nf_normNode (dcfgOf cfg₁ lang) r hpn (isText_of_isElt r helt))
+    (nf_normNode (dcfgOf cfg₂ lang) r hpn (isText_of_isElt r helt)) (ht _) (ht _) hv
+  rw [canon_normNode, canon_normNode] at this
+  exact this
+
+/-- **`strtbl_irrelevant_tree_partial`** ("WBXML produced with and without a string table … decodes to
+    the same document", at TREE level, where it is true — on event lists it is false, see above).
+    For the class of trees covered by `C03.rt_preserves_partial` (plain tree of a plain language, no
+    element called `Data`) and two option tuples with the same white-space option — in particular
+    `{cfg with useStrtbl := true}` against `{cfg with useStrtbl := false}`, any versions, with or
+    without public identifier — whenever BOTH encodings succeed, `wbxml_tree_from_wbxml` accepts both
+    outputs (every reader configuration that selects the language, every fuel) and the two trees
+    have the same language and roots that are EQUAL up to `canon` (token vs literal representation
+    of names): both are, up to `canon`, the one normalised source tree `normNode … r`.
+    When the second encoding can fail while the first succeeds: `strtbl_off_fails_on_literal`. -/
+theorem strtbl_irrelevant_tree_partial (cfg₁ cfg₂ : X2WCfg) (hk : cfg₁.keepWs = cfg₂.keepWs)
+    (t : Tree) (bs₁ bs₂ : Bytes) (lang : Lang) (r : Node)
+    (hlang : t.lang = some lang) (hroot : t.root = some r)
+    (hl : langOk lang = true) (hover : treeOver lang t = true)
+    (h₁ : treeToWbxml cfg₁ t = .ok bs₁) (h₂ : treeToWbxml cfg₂ t = .ok bs₂)
+    (hpn : plainNode r = true) (hpl : plainLang lang = true) (hnta : noTypedAttr lang.id = true)
+    (hvs : valSemOk lang = true) (has : attrSemOk lang = true) (hts : tagSemOk lang = true)
+    (han : attrNameSemOk lang = true) (hnd : noDataNode r = true) :
+    ∃ d₁ d₂ : Doc, bs₁ = Spec.ser d₁ ∧ bs₂ = Spec.ser d₂ ∧
+      ∀ (main : List Lang) (f₁ forced₁ meta₁ f₂ forced₂ meta₂ : Nat),
+        headerLang (pcfgOf main forced₁ meta₁) d₁.hdr = some lang →
+        (headerCharset (pcfgOf main forced₁ meta₁) d₁.hdr = 3 ∨ headerCharset (pcfgOf main forced₁ meta₁) d₁.hdr = 106) →
+        headerLang (pcfgOf main forced₂ meta₂) d₂.hdr = some lang →
+        (headerCharset (pcfgOf main forced₂ meta₂) d₂.hdr = 3 ∨ headerCharset (pcfgOf main forced₂ meta₂) d₂.hdr = 106) →
+        cfg₁.version < 256 → cfg₂.version < 256 → bs₁.length < 4294967296 → bs₂.length < 4294967296 →
+        ∃ (t₁ t₂ : Tree) (r₁ r₂ : Node),
+          treeOfWbxml main (f₁ + 1) forced₁ meta₁ bs₁ = .ok t₁ ∧ t₁.root = some r₁ ∧
+          treeOfWbxml main (f₂ + 1) forced₂ meta₂ bs₂ = .ok t₂ ∧ t₂.root = some r₂ ∧
+          t₁.lang = t₂.lang ∧ nfNode r₁ = true ∧ nfNode r₂ = true ∧
+          canon r₁ = normNode (dcfgOf cfg₁ lang) r ∧ canon r₂ = normNode (dcfgOf cfg₁ lang) r ∧
+          canon r₁ = canon r₂ := by
+  obtain ⟨d₁, e₁, k₁⟩ := C03.rt_preserves_partial cfg₁ t bs₁ lang r hlang hroot hl hover h₁ hpn hpl hnta hvs has hts han hnd
+  obtain ⟨d₂, e₂, k₂⟩ := C03.rt_preserves_partial cfg₂ t bs₂ lang r hlang hroot hl hover h₂ hpn hpl hnta hvs has hts han hnd
+  refine ⟨d₁, d₂, e₁, e₂, ?_⟩
+  intro main f₁ forced₁ meta₁ f₂ forced₂ meta₂ a₁ b₁ a₂ b₂ v₁ v₂ s₁ s₂
+  obtain ⟨r₁, q₁, _, n₁, c₁, _⟩ := k₁ main f₁ forced₁ meta₁ a₁ b₁ v₁ s₁
+  obtain ⟨r₂, q₂, _, n₂, c₂, _⟩ := k₂ main f₂ forced₂ meta₂ a₂ b₂ v₂ s₂
+  have hrElt : isElt r = true := by
+    simp only [treeOver, hroot, Bool.and_eq_true] at hover; exact hover.1
+  have hrOver : nodeOver lang r = true := by
+    simp only [treeOver, hroot, Bool.and_eq_true] at hover; exact hover.2
+  have hN := normNode_opts cfg₁ cfg₂ hk lang r hpn hrElt (namesOk_of_over lang hts han r hrOver)
+  refine ⟨_, _, r₁, r₂, q₁, rfl, q₂, rfl, rfl, n₁, n₂, c₁, by rw [c₂, hN], by rw [c₁, c₂, hN]⟩
+
+/-- `<x/>` as an OMA DM-DDF tree — a name that is not in the tag table. -/
+def exLiteral : Tree := C06.exDdf
+
+/-- **When the table-less encoding fails while the other succeeds**: exactly the literal names
+    (`C06.literals_only_via_strtbl`: with the string table disabled the body contains no string-table
+    index at all). `wbxml_encode_tag_literal` / `wbxml_encode_attr_start_literal` refuse an unknown
+    element or attribute name with error 100 (`WBXML_ERROR_STRTBL_DISABLED`) instead of writing it
+    another way — witness: `<x/>`, accepted with the string table, refused without. -/
+theorem strtbl_off_fails_on_literal :
+    (match treeToWbxml { useStrtbl := true } exLiteral with | .ok bs => bs.length | .error _ => 0) = 36 ∧
+    C06.errOf ((treeToWbxml { useStrtbl := false } exLiteral).map (fun _ => ())) = 100 := by decide +kernel
+
+/-- Non-vacuity of `strtbl_irrelevant_tree_partial`: C03's WML example (`<card id="a">` with text that is
+    trimmed, merged and dropped) satisfies all hypotheses; both encodings succeed with different octets
+    (the string table holds `there`/… only in the first); both round-trip trees are the normalised source tree up to `canon`. -/
+example : (match treeToWbxml { useStrtbl := true } C03.exWml, treeToWbxml { useStrtbl := false } C03.exWml with
+    | .ok b₁, .ok b₂ =>
+      (match treeOfWbxml Gen.main (b₁.length + 1) 0 0 b₁, treeOfWbxml Gen.main (b₂.length + 1) 0 0 b₂ with
+       | .ok t₁, .ok t₂ =>
+         plainEq (canon (C03.rootOr t₁)) (normNode (dcfgOf {} Gen.lang3) C03.exWmlRoot) &&
+         plainEq (canon (C03.rootOr t₂)) (normNode (dcfgOf {} Gen.lang3) C03.exWmlRoot) && t₁.lang == t₂.lang
+       | _, _ => false)
+    | _, _ => false) = true := by decide +kernel
+
 /-! ## XML generation modes -/
 
 /-- "Compact, indented (any indent width) and canonical XML generation … differing only in white
-    space between markup": for one tree (without embedded documents) and two parameter blocks that
-    differ in the generation mode and the indent width, `wbxml_tree_to_xml` either fails alike or
-    produces ONE sequence of chunks `ch`, written
+    space between markup": for one tree — ANY tree: CDATA sections and embedded documents (at any
+    depth) included — and two parameter blocks that differ in the generation mode and the indent
+    width, `wbxml_tree_to_xml` either fails alike or produces ONE sequence of chunks `ch`, written
 
       `mk bs`   identically in both runs (tags, attribute names, quotes, CDATA brackets, DOCTYPE),
       `txt s`   as `xmlEscape (gen == 2) s` — the same character data, canonical mode also escapes
@@ -253,36 +631,284 @@ theorem enc_opts_same_meaning_partial (cfg₁ cfg₂ : X2WCfg) (hk : cfg₁.keep
       `ws a b`  as `a` in the first run and `b` in the second, both consisting of spaces and line
                 feeds only (indentation and new lines between markup).
 
-    `_partial`: (i) the two modes must take the same white-space decisions on text — both are
-    not canonical, or white space is kept (`-k`): canonical generation never trims or drops
-    white-space text, compact / indented generation does unless `-k` is given, so for
-    compact-versus-canonical without `-k` the character data itself differs (by design of the
-    modes); (ii) trees without embedded documents (`noNested`): an embedded document is appended
-    as a C string, i.e. cut at the first NUL of either rendering — the chunk-wise cut is not
-    modelled here. -/
+    An embedded document is printed by a duplicated encoder with the same generation mode and
+    indent and appended as a C string; the cut at the first NUL octet falls into the same chunk of
+    both renderings at the same place (`cutChunks`), so no hypothesis about NUL octets is needed.
+
+    `_partial`: the two modes must take the same white-space decisions on text — both are not
+    canonical, or white space is kept (`-k`): canonical generation never trims or drops white-space
+    text, compact / indented generation does unless `-k` is given, so for compact-versus-canonical
+    without `-k` the character data itself differs (by design of the modes; see
+    `canonical_keeps_blank_text` below for the witness). -/
 theorem gen_modes_same_markup_partial (cfgA cfgB : W2XCfg) (fuel : Nat) (t : Tree) (hk : cfgA.keepWs = cfgB.keepWs)
-    (hc : (cfgA.gen != 2) = (cfgB.gen != 2) ∨ cfgA.keepWs = true)
-    (hn : ∀ r, t.root = some r → noNested r = true) :
+    (hc : (cfgA.gen != 2) = (cfgB.gen != 2) ∨ cfgA.keepWs = true) :
     match treeToXml cfgA fuel t, treeToXml cfgB fuel t with
     | .ok xa, .ok xb => ∃ ch : List XChunk, xa = ch.flatMap (rA cfgA.gen) ∧ xb = ch.flatMap (rB cfgB.gen) ∧ WsOk ch
     | .error ea, .error eb => ea = eb
     | _, _ => False :=
-  treeToXml_sim cfgA cfgB fuel t hk hc hn
+  treeToXml_sim cfgA cfgB fuel t hk hc
 
-/-- Indentation only: compact against indented output of any width — the character data is
-    byte-identical too (no canonical escaping on either side). -/
-theorem indent_adds_only_whitespace (cfg : W2XCfg) (w : UInt8) (fuel : Nat) (t : Tree)
-    (hn : ∀ r, t.root = some r → noNested r = true) :
+/-- Indentation only: compact against indented output of any width, EVERY tree (embedded documents
+    included) — the character data is byte-identical too (no canonical escaping on either side). -/
+theorem indent_adds_only_whitespace (cfg : W2XCfg) (w : UInt8) (fuel : Nat) (t : Tree) :
     match treeToXml { cfg with gen := 0 } fuel t, treeToXml { cfg with gen := 1, indent := w } fuel t with
     | .ok xa, .ok xb => ∃ ch : List XChunk, xa = ch.flatMap (rA 0) ∧ xb = ch.flatMap (rB 1) ∧ WsOk ch
     | .error ea, .error eb => ea = eb
     | _, _ => False :=
-  treeToXml_sim { cfg with gen := 0 } { cfg with gen := 1, indent := w } fuel t rfl (Or.inl rfl) hn
+  treeToXml_sim { cfg with gen := 0 } { cfg with gen := 1, indent := w } fuel t rfl (Or.inl rfl)
 
 /-- Non-vacuity: C06's example tree printed compact and with indent 2. -/
 example :
     (match treeToXml { main := Gen.main, gen := 0 } 10 C06.exTree, treeToXml { main := Gen.main, gen := 1, indent := 2 } 10 C06.exTree with
      | .ok xa, .ok xb => xa.length < xb.length && xa.filter (fun b => !isBlankB b) == xb.filter (fun b => !isBlankB b)
      | _, _ => false) = true := by decide +kernel
+
+/-- `<SyncML>a<DevInf><Man>x &amp; y</Man></DevInf></SyncML>`-like tree with an EMBEDDED DevInf document. -/
+def exNestedXml : Tree where
+  lang := some Gen.lang15
+  origCharset := 106
+  root := some (.elt (.token ⟨b!"SyncML", 0, 0x2D, 0⟩) [] [
+    .tree (some Gen.lang16) 106 (some (.elt (.literal b!"DevInf") [] [.elt (.literal b!"Man") [] [.text b!"x & y"]]))])
+
+/-- Non-vacuity with an embedded document: compact, indented (width 3) and canonical renderings all
+    succeed, differ, and agree once spaces and line feeds are removed. -/
+example :
+    (match treeToXml { main := Gen.main, gen := 0 } 10 exNestedXml, treeToXml { main := Gen.main, gen := 1, indent := 3 } 10 exNestedXml,
+        treeToXml { main := Gen.main, gen := 2 } 10 exNestedXml with
+     | .ok xa, .ok xb, .ok xc =>
+       xa.length < xb.length && xa.filter (fun b => !isBlankB b) == xb.filter (fun b => !isBlankB b) &&
+         xa.filter (fun b => !isBlankB b) == xc.filter (fun b => !isBlankB b) &&
+         (xa.drop (xa.length - 46) == b!"<DevInf><Man>x &amp; y</Man></DevInf></SyncML>")
+     | _, _, _ => false) = true := by decide +kernel
+
+/-- Why `gen_modes_same_markup_partial` needs its side condition: canonical generation keeps a
+    white-space-only text node that compact generation (without `-k`) drops. -/
+theorem canonical_keeps_blank_text :
+    (match treeToXml { main := Gen.main, gen := 0 } 10 C03.exHollow, treeToXml { main := Gen.main, gen := 2 } 10 C03.exHollow with
+     | .ok xa, .ok xc => (xa.drop (xa.length - 24), xc.drop (xc.length - 25))
+     | _, _ => ([], [])) = (b!"<wml><card></card></wml>", b!"<wml><card> </card></wml>") := by decide +kernel
+
+/-! ## XML generation modes and the reader (Expat as a parameter, as in C03)
+
+  `ReadsBack env xml c t` (Lemmas/RtSecond.lean) is the one assumption about Expat: the recorded run for
+  the text `xml` succeeded and its events are a conforming reading of the tree `t` printed under the
+  options `c` (language without namespace table; start / end events with the printed names and
+  attributes, character data as printed, in any chunking). -/
+
+/-- **Canonical and compact XML read back to the same tree.** One tree `t'` (root element `r'`, element
+    names readable, attribute values without literal TAB / LF — `attrsReadable` for the compact mode)
+    is printed compact (`cfgA`; `ReadsBack` itself excludes the indented mode) and canonical (`cfgC`,
+    `gen = 2`) with the same white-space option. Under
+    `ReadsBack` for BOTH printed texts `wbxml_tree_from_xml` succeeds on both and builds `readNode` of
+    `r'` under the respective options, and
+
+    * when white space is kept (`-k`), the two trees are EQUAL — canonical escaping (LF, TAB as
+      character references) is undone by the reader, nothing else differs;
+    * in general (also without `-k`, where compact drops / trims white-space text and canonical does
+      not): for every encoder configuration `wc` of the language whose white-space policy absorbs the
+      compact printer's (`flagsOk`, automatically true with `-k`), both trees have the same
+      normalisation `normNode wc`, namely that of `r'` (`r'` in normal form, not SyncML).
+
+    `_partial`: the scope of `ReadsBack` (plain trees, languages without namespace table). -/
+theorem canonical_and_compact_read_back_same_partial (main : List Lang) (lang : Lang) (cfgA cfgC : W2XCfg)
+    (hgC : cfgC.gen = 2) (hk : cfgA.keepWs = cfgC.keepWs)
+    (t' : Tree) (r' : Node) (fuelA fuelC k : Nat) (xmlA xmlC : Bytes) (env : List (Bytes × ExpatRun))
+    (hroot : t'.root = some r') (hpl : plainLang lang = true) (hdt : docTypeFinds main lang = true)
+    (helt : isElt r' = true) (hre : readable r' = true)
+    (har : attrsReadable (Lemmas.Rt.xcfgOf cfgA lang) r' = true)
+    (hxA : treeToXml cfgA fuelA t' = .ok xmlA) (hxC : treeToXml cfgC fuelC t' = .ok xmlC)
+    (hrbA : ReadsBack env xmlA (Lemmas.Rt.xcfgOf cfgA lang) t') (hrbC : ReadsBack env xmlC (Lemmas.Rt.xcfgOf cfgC lang) t') :
+    ∃ rA rC : Node,
+      treeOfXml main env (k + 1) xmlA = .ok { lang := some lang, origCharset := 0, root := some rA } ∧
+      treeOfXml main env (k + 1) xmlC = .ok { lang := some lang, origCharset := 0, root := some rC } ∧
+      rA = readNode lang (Lemmas.Rt.xcfgOf cfgA lang) r' ∧ rC = readNode lang (Lemmas.Rt.xcfgOf cfgC lang) r' ∧
+      (cfgA.keepWs = true → rA = rC) ∧
+      ∀ wc : WCfg, wc.lang = lang → isSyncml lang.id = false → nfNode r' = true →
+        (cfgA.keepWs = true ∨ flagsOk (Lemmas.Rt.xcfgOf cfgA lang) wc = true) →
+        normNode wc rA = normNode wc rC ∧ normNode wc rA = normNode wc r' := by
+  have hC2 : ((Lemmas.Rt.xcfgOf cfgC lang).gen == 2) = true := by simp [Lemmas.Rt.xcfgOf, hgC]
+  have harC : attrsReadable (Lemmas.Rt.xcfgOf cfgC lang) r' = true := attrsReadable_canonical _ _ hC2 r' har
+  refine ⟨_, _, treeOfXml_readsBack main hpl rfl hdt t' r' hroot hre helt env xmlA (treeToXml_ne_nil cfgA fuelA t' xmlA hxA) hrbA k,
+    treeOfXml_readsBack main hpl rfl hdt t' r' hroot hre helt env xmlC (treeToXml_ne_nil cfgC fuelC t' xmlC hxC) hrbC k,
+    rfl, rfl, ?_, ?_⟩
+  · intro hkeep
+    have hkC : cfgC.keepWs = true := by rw [← hk]; exact hkeep
+    exact readNode_congr lang (Lemmas.Rt.xcfgOf cfgA lang) (Lemmas.Rt.xcfgOf cfgC lang) rfl r'
+      (sameRead_keep (Lemmas.Rt.xcfgOf cfgA lang) (Lemmas.Rt.xcfgOf cfgC lang)
+        (by simp [Lemmas.Rt.xcfgOf, hkeep]) (by simp [Lemmas.Rt.xcfgOf, hkeep])
+        (by simp [Lemmas.Rt.xcfgOf, hkC]) (by simp [Lemmas.Rt.xcfgOf, hkC]) r' har harC)
+  · intro wc hwl hs hnf hflag
+    have hfA : flagsOk (Lemmas.Rt.xcfgOf cfgA lang) wc = true := by
+      rcases hflag with hkeep | hf
+      · simp [flagsOk, Lemmas.Rt.xcfgOf, hkeep]
+      · exact hf
+    have hfC : flagsOk (Lemmas.Rt.xcfgOf cfgC lang) wc = true := by simp [flagsOk, Lemmas.Rt.xcfgOf, hgC]
+    have nA := norm_read_node lang (Lemmas.Rt.xcfgOf cfgA lang) wc hwl (by rw [hwl]; exact hs) hfA r' hnf hre har
+    have nC := norm_read_node lang (Lemmas.Rt.xcfgOf cfgC lang) wc hwl (by rw [hwl]; exact hs) hfC r' hnf hre harC
+    exact ⟨by rw [nA, nC], nA⟩
+
+/-- **Indentation changes the read-back tree only by blank octets between markup.** The indented
+    rendering (`gen = 1`, any width) of `t'` (root `<name attrs>kids</name>`) is read by a conforming
+    reader as the markup of `t'` with white space added between markup (`indent_adds_only_whitespace`):
+    the reading is a conforming reading of a tree `<name attrs>kidsW</name>` where `kidsW` is `kids`
+    as printed plus blank octets — `BlankRelL`: blank-only text nodes inserted between markup, blank
+    octets at either end of a text (mixed content: `<card>\nHi there    <b>…`), nothing else; Expat
+    merges adjacent character data, so `kidsW` is taken in normal form. That is the assumption
+    `ReadsBack env xmlI (keepAll …) { t' with root := … kidsW }`. Then `wbxml_tree_from_xml` succeeds,
+    builds `readNode` of that blank-extended tree, and for every encoder configuration `wc` that
+    drops and trims white space (the default, no `-k`) its normalisation is the normalisation of the
+    printed tree: the added white space does not reach the WBXML document.
+
+    `_partial`: the scope of `ReadsBack`; with `-k` on the encoder side the statement is false by
+    design (the indentation white space is kept as text: `indent_read_back_differs_with_keep`). -/
+theorem indent_read_back_same_up_to_blank_text_partial (main : List Lang) (lang : Lang) (cfgI : W2XCfg)
+    (t' : Tree) (name : Name) (attrs : List Attr) (kids kidsW : List Node) (fuelI k : Nat) (xmlI : Bytes)
+    (env : List (Bytes × ExpatRun))
+    (hpl : plainLang lang = true) (hdt : docTypeFinds main lang = true)
+    (hrel : BlankRelL (Lemmas.Rt.xcfgOf cfgI lang) kids kidsW)
+    (hnfW : nfNode (.elt name attrs kidsW) = true) (hreW : readable (.elt name attrs kidsW) = true)
+    (harW : attrsReadable (keepAll (Lemmas.Rt.xcfgOf cfgI lang)) (.elt name attrs kidsW) = true)
+    (hxI : treeToXml cfgI fuelI t' = .ok xmlI)
+    (hrbI : ReadsBack env xmlI (keepAll (Lemmas.Rt.xcfgOf cfgI lang)) { t' with root := some (.elt name attrs kidsW) }) :
+    ∃ rI : Node,
+      treeOfXml main env (k + 1) xmlI = .ok { lang := some lang, origCharset := 0, root := some rI } ∧
+      rI = readNode lang (keepAll (Lemmas.Rt.xcfgOf cfgI lang)) (.elt name attrs kidsW) ∧
+      ∀ wc : WCfg, wc.lang = lang → isSyncml lang.id = false → wc.ignoreEmpty = true → wc.removeBlanks = true →
+        normNode wc rI = normNode wc (.elt name attrs kidsW) ∧
+        normNode wc rI = normNode wc (.elt name attrs kids) := by
+  refine ⟨_, treeOfXml_readsBack main hpl rfl hdt _ (.elt name attrs kidsW) rfl hreW rfl env xmlI
+    (treeToXml_ne_nil cfgI fuelI t' xmlI hxI) hrbI k, rfl, ?_⟩
+  intro wc hwl hs hi hr
+  have hf1 : flagsOk (keepAll (Lemmas.Rt.xcfgOf cfgI lang)) wc = true := by simp [flagsOk, keepAll]
+  have hf2 : flagsOk (Lemmas.Rt.xcfgOf cfgI lang) wc = true := by simp [flagsOk, hi, hr]
+  have n1 := norm_read_node lang (keepAll (Lemmas.Rt.xcfgOf cfgI lang)) wc hwl (by rw [hwl]; exact hs) hf1 _ hnfW hreW harW
+  have n2 := blankRel_norm_node (Lemmas.Rt.xcfgOf cfgI lang) wc (by rw [hwl]; exact hs) hf2 hi hr name attrs kids kidsW hrel
+  exact ⟨n1, by rw [n1, n2]⟩
+
+/-- … hence the indented and the compact rendering of one tree read back to trees with the same
+    normalisation (encoder without `-k`): `wbxml2xml -i n` followed by `xml2wbxml` gives what
+    `wbxml2xml` (compact) followed by `xml2wbxml` gives. -/
+theorem indent_and_compact_read_back_same_norm_partial (main : List Lang) (lang : Lang) (cfgI cfgA : W2XCfg)
+    (t' : Tree) (name : Name) (attrs : List Attr) (kids kidsW : List Node) (fuelI fuelA k : Nat) (xmlI xmlA : Bytes)
+    (env : List (Bytes × ExpatRun))
+    (hroot : t'.root = some (.elt name attrs kids))
+    (hpl : plainLang lang = true) (hdt : docTypeFinds main lang = true)
+    (hrel : BlankRelL (Lemmas.Rt.xcfgOf cfgI lang) kids kidsW)
+    (hnf : nfNode (.elt name attrs kids) = true) (hre : readable (.elt name attrs kids) = true)
+    (har : attrsReadable (Lemmas.Rt.xcfgOf cfgA lang) (.elt name attrs kids) = true)
+    (hnfW : nfNode (.elt name attrs kidsW) = true) (hreW : readable (.elt name attrs kidsW) = true)
+    (harW : attrsReadable (keepAll (Lemmas.Rt.xcfgOf cfgI lang)) (.elt name attrs kidsW) = true)
+    (hxI : treeToXml cfgI fuelI t' = .ok xmlI) (hxA : treeToXml cfgA fuelA t' = .ok xmlA)
+    (hrbI : ReadsBack env xmlI (keepAll (Lemmas.Rt.xcfgOf cfgI lang)) { t' with root := some (.elt name attrs kidsW) })
+    (hrbA : ReadsBack env xmlA (Lemmas.Rt.xcfgOf cfgA lang) t') :
+    ∃ rI rA : Node,
+      treeOfXml main env (k + 1) xmlI = .ok { lang := some lang, origCharset := 0, root := some rI } ∧
+      treeOfXml main env (k + 1) xmlA = .ok { lang := some lang, origCharset := 0, root := some rA } ∧
+      ∀ wc : WCfg, wc.lang = lang → isSyncml lang.id = false → wc.ignoreEmpty = true → wc.removeBlanks = true →
+        normNode wc rI = normNode wc rA := by
+  obtain ⟨rI, eI, _, nI⟩ := indent_read_back_same_up_to_blank_text_partial main lang cfgI t' name attrs kids kidsW fuelI k xmlI env
+    hpl hdt hrel hnfW hreW harW hxI hrbI
+  refine ⟨rI, _, eI, treeOfXml_readsBack main hpl rfl hdt t' _ hroot hre rfl env xmlA
+    (treeToXml_ne_nil cfgA fuelA t' xmlA hxA) hrbA k, ?_⟩
+  intro wc hwl hs hi hr
+  have hfA : flagsOk (Lemmas.Rt.xcfgOf cfgA lang) wc = true := by simp [flagsOk, hi, hr]
+  rw [(nI wc hwl hs hi hr).2, norm_read_node lang (Lemmas.Rt.xcfgOf cfgA lang) wc hwl (by rw [hwl]; exact hs) hfA _ hnf hre har]
+
+/-! ### Non-vacuity of the read-back theorems -/
+
+/-- `<wml><card id="a">Hi<LF><TAB>there<b>x</b><b>y</b></card></wml>` (WML 1.3, literal names): mixed content,
+    a line feed and a TAB in the text (canonical XML writes them as character references). -/
+def exRb : Tree where
+  lang := some Gen.lang3
+  origCharset := 106
+  root := some (.elt (.literal b!"wml") [] [
+    .elt (.literal b!"card") [{ name := .literal b!"id", value := b!"a" }] [
+      .text (b!"Hi" ++ [10, 9] ++ b!"there"), .elt (.literal b!"b") [] [.text b!"x"], .elt (.literal b!"b") [] [.text b!"y"]]])
+
+def outX (cfg : W2XCfg) (t : Tree) : Bytes := match treeToXml cfg 10 t with | .ok x => x | .error _ => []
+
+/-- The recorded Expat runs: for each printed text the canonical conforming reading (`readsBack_canonical`
+    says each of them is a `ReadsBack` witness). -/
+def envRb (cA cC : W2XCfg) (t : Tree) : List (Bytes × ExpatRun) :=
+  [(outX cA t, { ok := true, events := xmlEventsOf (Lemmas.Rt.xcfgOf cA Gen.lang3) t }),
+   (outX cC t, { ok := true, events := xmlEventsOf (Lemmas.Rt.xcfgOf cC Gen.lang3) t })]
+
+/-- `canonical_and_compact_read_back_same_partial`, evaluated (white space kept): the table hypotheses,
+    `readable`, `attrsReadable` hold; the two printed texts differ (`&#10;&#9;` against the raw octets); both
+    are read back successfully, and the two trees are equal. -/
+example : plainLang Gen.lang3 = true ∧ docTypeFinds Gen.main Gen.lang3 = true ∧ readable (C03.rootOr exRb) = true ∧
+    attrsReadable (Lemmas.Rt.xcfgOf { main := Gen.main, gen := 0, keepWs := true } Gen.lang3) (C03.rootOr exRb) = true ∧
+    (outX { main := Gen.main, gen := 0, keepWs := true } exRb).length + 7 =
+      (outX { main := Gen.main, gen := 2, keepWs := true } exRb).length ∧
+    (match treeOfXml Gen.main (envRb { main := Gen.main, gen := 0, keepWs := true } { main := Gen.main, gen := 2, keepWs := true } exRb) 3
+        (outX { main := Gen.main, gen := 0, keepWs := true } exRb),
+      treeOfXml Gen.main (envRb { main := Gen.main, gen := 0, keepWs := true } { main := Gen.main, gen := 2, keepWs := true } exRb) 3
+        (outX { main := Gen.main, gen := 2, keepWs := true } exRb) with
+     | .ok ta, .ok tc => plainEq (C03.rootOr ta) (C03.rootOr tc) && (ta.lang == some Gen.lang3)
+     | _, _ => false) = true := by decide +kernel
+
+/-- The example tree of the indentation theorem: mixed content under `card`. -/
+def exInd : Tree where
+  lang := some Gen.lang3
+  origCharset := 106
+  root := some (.elt (.literal b!"wml") [] [
+    .elt (.literal b!"card") [{ name := .literal b!"id", value := b!"a" }] [
+      .text b!"Hi there", .elt (.literal b!"b") [] [.text b!"x"], .elt (.literal b!"b") [] [.text b!"y"]]])
+
+def exIndCfg : W2XCfg := { main := Gen.main, gen := 1, indent := 2 }
+
+/-- Its children with the white space the indented rendering (width 2) adds: a blank text node before
+    `card` and before `</wml>`, LF in front of and four spaces behind `Hi there`, blank text nodes before
+    the second `b` and before `</card>`. -/
+def exIndKidsW : List Node := [
+  .text [10, 32, 32],
+  .elt (.literal b!"card") [{ name := .literal b!"id", value := b!"a" }] [
+    .text ([10] ++ b!"Hi there" ++ [32, 32, 32, 32]), .elt (.literal b!"b") [] [.text b!"x"],
+    .text [10, 32, 32, 32, 32], .elt (.literal b!"b") [] [.text b!"y"], .text [10, 32, 32]],
+  .text [10]]
+
+def exIndW : Tree := { exInd with root := some (.elt (.literal b!"wml") [] exIndKidsW) }
+
+/-- The blank-extended children are related to the printed children by `BlankRelL`. -/
+theorem exInd_blankRel : BlankRelL (Lemmas.Rt.xcfgOf exIndCfg Gen.lang3)
+    [.elt (.literal b!"card") [{ name := .literal b!"id", value := b!"a" }] [
+      .text b!"Hi there", .elt (.literal b!"b") [] [.text b!"x"], .elt (.literal b!"b") [] [.text b!"y"]]]
+    exIndKidsW := by
+  refine BlankRelL.ins [10, 32, 32] _ _ (by decide) (BlankRelL.elt _ _ _ _ _ _ ?_ (BlankRelL.ins [10] _ _ (by decide) BlankRelL.nil))
+  refine BlankRelL.text b!"Hi there" [10] [32, 32, 32, 32] _ _ (by decide) (by decide) ?_
+  refine BlankRelL.elt _ _ _ _ _ _ (BlankRelL.text b!"x" [] [] _ _ (by decide) (by decide) BlankRelL.nil) ?_
+  refine BlankRelL.ins [10, 32, 32, 32, 32] _ _ (by decide) ?_
+  exact BlankRelL.elt _ _ _ _ _ _ (BlankRelL.text b!"y" [] [] _ _ (by decide) (by decide) BlankRelL.nil)
+    (BlankRelL.ins [10, 32, 32] _ _ (by decide) BlankRelL.nil)
+
+/-- `indent_read_back_same_up_to_blank_text_partial`, evaluated: the indented rendering of `exInd` IS, octet
+    for octet, the header followed by the white-space-keeping compact rendering of the blank-extended
+    tree `exIndW` (so a conforming reader of the one is a conforming reader of the other); `exIndW` is in
+    normal form, readable; `wbxml_tree_from_xml` over its canonical reading succeeds, and under the default
+    encoder options the tree it builds, the tree built from the compact rendering and the printed tree
+    have one and the same normalisation. -/
+example : outX exIndCfg exInd =
+      xmlHeader Gen.lang3 1 ++ renderNode (keepAll (Lemmas.Rt.xcfgOf exIndCfg Gen.lang3)) (C03.rootOr exIndW) ++ [10] ∧
+    nfNode (C03.rootOr exIndW) = true ∧ readable (C03.rootOr exIndW) = true ∧
+    attrsReadable (keepAll (Lemmas.Rt.xcfgOf exIndCfg Gen.lang3)) (C03.rootOr exIndW) = true ∧
+    (match treeOfXml Gen.main [(outX exIndCfg exInd,
+          { ok := true, events := xmlEventsOf (keepAll (Lemmas.Rt.xcfgOf exIndCfg Gen.lang3)) exIndW })] 3 (outX exIndCfg exInd),
+        treeOfXml Gen.main [(outX { main := Gen.main, gen := 0 } exInd,
+          { ok := true, events := xmlEventsOf (Lemmas.Rt.xcfgOf { main := Gen.main, gen := 0 } Gen.lang3) exInd })] 3
+          (outX { main := Gen.main, gen := 0 } exInd) with
+     | .ok ti, .ok ta =>
+       plainEq (normNode (dcfgOf {} Gen.lang3) (C03.rootOr ti)) (normNode (dcfgOf {} Gen.lang3) (C03.rootOr ta)) &&
+       plainEq (normNode (dcfgOf {} Gen.lang3) (C03.rootOr ti)) (normNode (dcfgOf {} Gen.lang3) (C03.rootOr exInd)) &&
+       !(plainEq (C03.rootOr ti) (C03.rootOr ta))
+     | _, _ => false) = true := by decide +kernel
+
+/-- With `-k` on the encoder side the indentation white space is kept as character data (by design):
+    the normalisations under `keepWs := true` differ. -/
+theorem indent_read_back_differs_with_keep :
+    (match treeOfXml Gen.main [(outX exIndCfg exInd,
+          { ok := true, events := xmlEventsOf (keepAll (Lemmas.Rt.xcfgOf exIndCfg Gen.lang3)) exIndW })] 3 (outX exIndCfg exInd) with
+     | .ok ti => plainEq (normNode (dcfgOf { keepWs := true } Gen.lang3) (C03.rootOr ti))
+         (normNode (dcfgOf { keepWs := true } Gen.lang3) (C03.rootOr exInd))
+     | _ => true) = false := by decide +kernel
 
 end Wbxml.Props.C07
